@@ -708,6 +708,23 @@ func (env *Env) call(e *Expr) *Val {
 	case "old":
 		n := *env
 		n.cur = env.old
+		if env.ex.inputs != nil && env.fr == nil {
+			// captured variables: old(x) is the value at entry
+			nv := map[string]*Val{}
+			for k, v := range env.vars {
+				nv[k] = v
+			}
+			if env.ex.fn != nil {
+				for _, fv := range env.ex.fn.FreeVars {
+					if v, ok := env.ex.inputs[fv.Name()]; ok {
+						if _, bound := env.vars[fv.Name()]; bound {
+							nv[fv.Name()] = v
+						}
+					}
+				}
+			}
+			n.vars = nv
+		}
 		return n.eval(e.Args[0])
 	case "iterstart":
 		if env.fr == nil || env.ex.iterStart == nil {
@@ -845,6 +862,12 @@ func (env *Env) call(e *Expr) *Val {
 	case "errIs":
 		a, b := env.eval(e.Args[0]), env.eval(e.Args[1])
 		return scalar(App("errIs", SBool, recast(a.T, SErr), recast(b.T, SErr)), boolT)
+	case "isHandleOf":
+		// isHandleOf(v, h): the interface value v holds the function value h
+		a, b := env.eval(e.Args[0]), env.eval(e.Args[1])
+		return scalar(Eq(recast(a.T, SRef), recast(b.T, SRef)), boolT)
+	case "zeroTime":
+		return scalar(Sym("zeroTime", STime), nil)
 	case "unwrap1":
 		a := env.eval(e.Args[0])
 		return scalar(App("unwrap1", SErr, recast(a.T, SErr)), types.Universe.Lookup("error").Type())
